@@ -128,7 +128,8 @@ def to_rdflib(t):
         # (rdflib refuses a literal that states both; such a term is then not a fixpoint)
         return rdflib.Literal(t[1], lang=t[2], datatype=None if t[2] else t[3])
     if k == "D":
-        return DATASET_DEFAULT_GRAPH_ID
+        # a caller's own URIRef: equal to rdflib's constant, never the same object
+        return rdflib.URIRef(str(DATASET_DEFAULT_GRAPH_ID))
     if k == "X":
         return object()
     raise ValueError(t)
